@@ -17,6 +17,7 @@ import (
 	"strconv"
 	"strings"
 	"sync/atomic"
+	"unicode/utf8"
 
 	cloudstorage "cloud.google.com/go/storage"
 	"github.com/bluele/gcache"
@@ -212,6 +213,10 @@ func (g *GcsEmu) handleGcsCompose(ctx context.Context, baseUrl HttpBaseUrl, w ht
 	var req storage.ComposeRequest
 	if err := json.NewDecoder(r.Body).Decode(&req); err != nil {
 		g.gapiError(w, http.StatusBadRequest, "bad compose request")
+		return
+	}
+	if !utf8.ValidString(object) {
+		g.gapiError(w, http.StatusBadRequest, "object names must be valid UTF-8")
 		return
 	}
 	dst := composeObj{
@@ -452,6 +457,10 @@ func (g *GcsEmu) handleGcsUpdateMetadataRequest(ctx context.Context, baseUrl Htt
 func (g *GcsEmu) handleGcsCopy(ctx context.Context, baseUrl HttpBaseUrl, w http.ResponseWriter, b1 string, objectPaths string) {
 	// TODO(dk): this operation supports conditionals and metadata rewriting, but the emulator implementation currently does not.
 	// See https://cloud.google.com/storage/docs/json_api/v1/objects/rewrite
+	if !utf8.ValidString(objectPaths) {
+		g.gapiError(w, http.StatusBadRequest, "object names must be valid UTF-8")
+		return
+	}
 	parts := strings.Split(objectPaths, "/rewriteTo/b/")
 	// Copy is implemented using the Rewrite API, with object strings of format /o/sourceObject/rewriteTo/b/destinationBucket/o/destinationObject
 	if len(parts) != 2 {
@@ -697,6 +706,9 @@ func (g *GcsEmu) handleGcsNewObjectResume(ctx context.Context, baseUrl HttpBaseU
 
 func (g *GcsEmu) finishUpload(ctx context.Context, baseUrl HttpBaseUrl, obj *storage.Object, contents []byte, bucket string, conds cloudstorage.Conditions) (*storage.Object, error) {
 	filename := obj.Name
+	if !utf8.ValidString(filename) {
+		return nil, fmtErrorfCode(http.StatusBadRequest, "object names must be valid UTF-8")
+	}
 	bHash := md5.Sum(contents)
 	contentHash := bHash[:]
 	md5Hash := base64.StdEncoding.EncodeToString(contentHash)
